@@ -204,3 +204,48 @@ theorem sizePairs_spec : ∀ (kvs : List (Item × Item)), ValidP kvs → RepP kv
 end
 
 end Lemmas.Ser
+
+namespace Lemmas.Ser
+open Model Spec Gen
+
+theorem sizeChunks_fold (cs : List (List UInt8)) (acc : UInt64) :
+    sizeChunks cs acc = (cs.map List.length).foldl (fun a l => _cbor_safe_signaling_add a (sizeString l)) acc := by
+  induction cs generalizing acc with
+  | nil => rfl
+  | cons c cs ih => simp [sizeChunks, ih]
+
+theorem skelList_length : ∀ xs : List Item, (skelList xs).length = xs.length
+  | [] => rfl
+  | x :: xs => by simp [skelList, skelList_length xs]
+theorem skelPairs_length : ∀ xs : List (Item × Item), (skelPairs xs).length = xs.length
+  | [] => rfl
+  | (k, v) :: xs => by simp [skelPairs, skelPairs_length xs]
+
+mutual
+/-- the size computation looks only at the skeleton: the model driven with recorded lengths (`sizeS`) is the
+model the theorems are about (`size`) -/
+theorem size_eq_sizeS : ∀ t : Item, size t = sizeS (skel t)
+  | .uint _ _ => by simp [skel, sizeS]
+  | .negint _ _ => by simp [skel, sizeS]
+  | .bytes b => by simp [skel, sizeS, size]
+  | .text b => by simp [skel, sizeS, size]
+  | .bytesI cs => by simp [skel, sizeS, size, sizeChunks_fold]
+  | .textI cs => by simp [skel, sizeS, size, sizeChunks_fold]
+  | .array xs => by simp [skel, sizeS, size, skelList_length, sizeList_eq xs]
+  | .arrayI xs => by simp [skel, sizeS, size, sizeList_eq xs]
+  | .map kvs => by simp [skel, sizeS, size, skelPairs_length, sizePairs_eq kvs]
+  | .mapI kvs => by simp [skel, sizeS, size, sizePairs_eq kvs]
+  | .tag t x => by simp [skel, sizeS, size, size_eq_sizeS x]
+  | .simple _ => by simp [skel, sizeS]
+  | .half _ => by simp [skel, sizeS]
+  | .single _ => by simp [skel, sizeS]
+  | .double _ => by simp [skel, sizeS]
+theorem sizeList_eq : ∀ (xs : List Item) (acc : UInt64), sizeList xs acc = sizeSList (skelList xs) acc
+  | [], _ => rfl
+  | x :: xs, acc => by simp [sizeList, skelList, sizeSList, size_eq_sizeS x, sizeList_eq xs]
+theorem sizePairs_eq : ∀ (kvs : List (Item × Item)) (acc : UInt64), sizePairs kvs acc = sizeSPairs (skelPairs kvs) acc
+  | [], _ => rfl
+  | (k, v) :: r, acc => by simp [sizePairs, skelPairs, sizeSPairs, size_eq_sizeS k, size_eq_sizeS v, sizePairs_eq r]
+end
+
+end Lemmas.Ser
